@@ -20,10 +20,12 @@ Theorem asynctask_trace_accepted_src : forall l t tr s, exec (mkcfg facts_src l 
 Proof. exact src_trace_accepted. Qed.
 Print Assumptions asynctask_trace_accepted_src.
 
-(* jobFinished is a std::atomic<bool> (section 3.3 item 6: only atomics have an interleaving semantics) *)
-Theorem asynctask_flag_atomic_src : f_flag_atomic facts_src = true.
-Proof. exact src_flag_atomic. Qed.
-Print Assumptions asynctask_flag_atomic_src.
+(* every store of jobFinished in the task closure is release-or-stronger and every load in finished()/valid()/get() is
+   acquire-or-stronger (memory orders extracted from the AST; std::atomic's default is seq_cst): the flag publishes the result *)
+Theorem asynctask_flag_publishes_src : f_flag_publishes facts_src = true /\
+  flag_publishes flag_store_orders_src flag_load_orders_src = true.
+Proof. exact src_flag_publishes. Qed.
+Print Assumptions asynctask_flag_publishes_src.
 
 Theorem async_heap_task_deleted_once_src : async_ok async_pre_src async_post_src async_body_src 1 = true.
 Proof. exact src_async_ok. Qed.
@@ -54,3 +56,10 @@ Print Assumptions schedule_internal_nested_not_freed_on_stack_src.
 Theorem schedule_internal_no_lost_wakeup_src : lost_wakeup_possible wake_fenced_src wait_fenced_src = false.
 Proof. exact src_no_lost_wakeup. Qed.
 Print Assumptions schedule_internal_no_lost_wakeup_src.
+
+(* schedule_impl / AsyncTaskImpl per backend: complete statement lists equal the reference shapes (no static or
+   thread_local locals — the arena is attached per call, the std::thread is a per-call local —, no extra calls);
+   async() contains nothing but the recognised statements *)
+Theorem glue_code_shape_src : glue_ok sched_impl_src impl_ctor_src impl_wait_src = true /\ async_unknown_stmts_src = 0%nat.
+Proof. exact src_glue_ok. Qed.
+Print Assumptions glue_code_shape_src.
